@@ -76,6 +76,8 @@ def build_streams(lab, tier, seed, consulted):
         single.append(inproc("emptied", {f: ("cut", 0)}, starts=st))
         if quick:
             pts = cut_offsets(sizes[f], 16, rng)
+            if f in consulted or f in pool_entries:     # every early byte position (headers, framing)
+                pts = sorted(set(pts) | set(range(1, min(64, sizes[f]))))
         elif f in consulted or f in pool_entries:
             pts = list(range(1, sizes[f]))                     # every byte offset
         else:
@@ -313,14 +315,15 @@ def main(tier, seed):
         "on a damaged entry, then restarts; the *_el family; random calls between restarts); %d real interpreters (`import lingpy`, "
         "XDG_CACHE_HOME redirected) over random multi-file states and restart sequences. "
         "Non-trivial = at least one start had to rebuild an entry (a cache.dump happened); distinct by the damage."
-        % ("16 offsets incl. 1 and size-1" if tier == "quick" else
+        % ("every offset < 64 of the consulted files + 16 offsets incl. 1 and size-1" if tier == "quick" else
            "every byte offset (consulted files) / 250 offsets (never-read scorer files)",
            "all subsets deleted, 40% sample of the subsets emptied," if tier == "quick" else "all 3^8 mixed {intact, deleted, emptied} states",
            30 if tier == "quick" else 500))
     c["exhaustive"] = False
     c["trusted_base"] += [
         "DECODER HYPOTHESIS (explicit premise of every C20 theorem, not proved): pickle.load of a complete pickle "
-        "returns the object, and pickle.load of the empty file or of a strict prefix of a complete pickle raises. "
+        "returns the object, and pickle.load of the empty file or of a strict prefix of a complete pickle raises; "
+        "observed through the code's own decoder cache.load (open + unpickle as lingpy/cache.py does it). "
         "Checked on every file of every damaged state of this run (bit 5), never contradicted",
         "the model cannot exhibit pickle or the file system: cache entries are abstract contents with enc/dec; "
         "proved is the fallback logic (try load / on any failure compile and load again) for every cache state",
